@@ -296,13 +296,16 @@ func (v *Verifier) replaySafety(o *Obligation, dir string) ReplayResult {
 				g.results = append(g.results, fmt.Sprintf("r%d", i))
 			}
 			cond := g.expr(e)
-			if g.err == nil && nres > 0 {
+			if g.err == nil {
 				if fn.Signature.Recv() != nil {
 					call = fmt.Sprintf("%s.%s(%s)", args[0], fn.Name(), strings.Join(args[1:], ", "))
 				} else {
 					call = fmt.Sprintf("%s(%s)", fn.Name(), strings.Join(args, ", "))
 				}
-				call = strings.Join(g.olds, "\n\t") + "\n\t" + strings.Join(g.results, ", ") + " := " + call
+				if nres > 0 {
+					call = strings.Join(g.results, ", ") + " := " + call
+				}
+				call = strings.Join(g.olds, "\n\t") + "\n\t" + call
 				for _, r := range g.results {
 					call += "\n\t_ = " + r
 				}
